@@ -18,7 +18,7 @@ SEARCH_AOBJ = $(patsubst engines/%.cpp,$(B)/asan/%.o,$(SEARCH_SRC))
 
 .PHONY: all prod asan clean
 all: prod
-prod: $(B)/search $(B)/segmentation $(B)/dynamic $(B)/multidim
+prod: $(B)/search $(B)/segmentation $(B)/dynamic $(B)/multidim $(B)/mapped
 
 $(STAMP):
 	@mkdir -p $(B) && touch $@
@@ -47,6 +47,12 @@ $(B)/multidim: $(B)/prod/multidim.o
 	$(CXX) $(PROD) $^ -o $@
 
 $(B)/multidim_asan: $(B)/asan/multidim.o
+	$(CXX) $(ASAN) $^ -o $@
+
+$(B)/mapped: $(B)/prod/mapped.o
+	$(CXX) $(PROD) $^ -o $@
+
+$(B)/mapped_asan: $(B)/asan/mapped.o
 	$(CXX) $(ASAN) $^ -o $@
 
 $(B)/search_asan: $(SEARCH_AOBJ)
